@@ -731,6 +731,76 @@ fn chatty_io(rng: &mut Rng, rep: &mut Report) {
     }
 }
 
+/// The standard library's own readers and adaptors around a stream of k lines (+ an unterminated tail): a byte slice, a
+/// cursor, buffered readers of capacity 1 / 3 / 8192 (kept for the whole stream), a chain of two halves cut at every
+/// position of a line, `take(n)` with n at the end of each line. Frame i comes back on read i; where the stream is cut
+/// short inside a frame the read fails; nothing panics.
+fn std_readers(rng: &mut Rng, rep: &mut Report) {
+    use std::io::{BufReader, Cursor, Read};
+    for round in 0..12usize {
+        let k = 2 + round % 4;
+        let frames: Vec<(u16, u8, Vec<u8>)> = (0..k).map(|i| if round % 3 == 0 && i == 1 { (0x00FF, 0x01, rng.bytes(255)) } else { rand_frame(rng) }).collect();
+        let lines: Vec<Vec<u8>> = frames.iter().map(|f| refs::enc_crlf(f.0, f.1, &f.2)).collect();
+        let tape: Vec<u8> = lines.concat();
+        let sig = format!("std-readers|{}", frames.iter().map(|f| format!("{:04X}:{:02X}:{}", f.0, f.1, hex(&f.2))).collect::<Vec<_>>().join(","));
+        let same = |g: &Frame<'_>, f: &(u16, u8, Vec<u8>)| g.address().0 == f.0 && g.message_type().0 == f.1 && g.data().as_ref() == &f.2[..];
+        // reads all k frames and then expects a failing read
+        let drain = |r: &mut dyn Read, upto: usize, what: &str| -> Vec<String> {
+            let mut bad = vec![];
+            let mut r = r;
+            for (i, f) in frames.iter().enumerate().take(upto) {
+                match Frame::read(&mut r) {
+                    Ok(g) if same(&g, f) => {}
+                    other => bad.push(format!("{}: read #{} gave {:?}", what, i, other.map_err(|e| e.to_string()))),
+                }
+            }
+            if let Ok(g) = Frame::read(&mut r) {
+                bad.push(format!("{}: read #{} past the last complete line gave Ok({:?})", what, upto, g));
+            }
+            bad
+        };
+        let r = catch(|| {
+            let mut bad: Vec<String> = vec![];
+            bad.extend(drain(&mut &tape[..], k, "byte slice"));
+            bad.extend(drain(&mut Cursor::new(tape.clone()), k, "cursor over a vector"));
+            bad.extend(drain(&mut Cursor::new(&tape[..]), k, "cursor over a slice"));
+            for cap in [1usize, 3, 8192] {
+                bad.extend(drain(&mut BufReader::with_capacity(cap, &tape[..]), k, "buffered reader"));
+            }
+            // a chain of two halves, cut at every position of the second line (and at both its ends)
+            let (a, b) = (lines[0].len(), lines[0].len() + lines[1].len());
+            let cuts: Vec<usize> = if b - a > 100 { vec![a, a + 1, a + 9, (a + b) / 2, b - 2, b - 1, b] } else { (a..=b).collect() };
+            for cut in cuts {
+                bad.extend(drain(&mut (&tape[..cut]).chain(&tape[cut..]), k, "chain"));
+                bad.extend(drain(&mut (&tape[..cut]).chain(&b""[..]).chain(&tape[cut..]), k, "chain with an empty middle"));
+            }
+            // take(n): the stream ends after line j (all of it, or all but its last byte / last two bytes)
+            let mut end = 0usize;
+            for j in 0..k {
+                end += lines[j].len();
+                bad.extend(drain(&mut (&tape[..]).take(end as u64), j + 1, "take up to a line end"));
+                // without its CR LF the last line is still a whole frame (the terminator is optional at the end of a stream);
+                // without its last checksum digit it is not
+                bad.extend(drain(&mut (&tape[..]).take(end as u64 - 2), j + 1, "take up to a line's CR"));
+                bad.extend(drain(&mut (&tape[..]).take(end as u64 - 3), j, "take up to a line's last digit"));
+            }
+            bad
+        });
+        rep.case(Some(fnv(sig.as_bytes())));
+        match r {
+            Err(p) => rep.violation(MON_R, "panic", &sig, format!("standard-library readers around a stream of {} lines: panic {} at {}", k, p.msg, short_loc(&p.loc)), J::obj(vec![("workload", J::s("std readers"))])),
+            Ok(bad) => {
+                if bad.is_empty() {
+                    rep.count("std_reader_rounds_ok");
+                }
+                for b in bad.into_iter().take(3) {
+                    rep.violation(MON_R, "wrong_result", &sig, format!("standard-library readers around a stream of {} lines: {}", k, b), J::obj(vec![("workload", J::s("std readers")), ("observed", J::s(b.clone()))]));
+                }
+            }
+        }
+    }
+}
+
 fn exhaustive_write(rep: &mut Report) {
     let frames = [(0x0003u16, 0x02u8, vec![0xFFu8]), (0xABCD, 0x00, (0..16).collect::<Vec<u8>>()), (0, 1, vec![])];
     for f in frames {
@@ -957,6 +1027,7 @@ pub fn run(ctx: &Ctx) -> Outcome {
             exhaustive_write(rep);
             std_sinks(rep);
             chatty_io(&mut ctx.rng("chatty", 0), rep);
+            std_readers(&mut ctx.rng("std_readers", 0), rep);
             twin_write_sessions(&mut ctx.rng("twins", 0), rep);
             marathon(rep);
         } else {
@@ -998,6 +1069,7 @@ pub fn run(ctx: &Ctx) -> Outcome {
         floor("near-twin frames written back to back to one sink (no data / 00 / one byte / longer, neighbouring address or type), every ordered pair", report.get("twin_write_sessions") == 6 * 15 * 14, report.get("twin_write_sessions")),
         floor("the standard library's sinks (slice, cursors, vector, buffered writer) with room for every number of bytes up to the line and two more", report.get("std_sink_writes_ok") > 100 && report.get("std_sink_writes_failed") > 100, format!("{} ok, {} failed", report.get("std_sink_writes_ok"), report.get("std_sink_writes_failed"))),
         floor("sinks and streams that write and read frames of their own during every call", report.get("chatty_sessions_ok") >= 20, report.get("chatty_sessions_ok")),
+        floor("the standard library's readers and adaptors (slice, cursors, buffered readers, chains cut at every position, take) around streams of 2..5 lines", report.get("std_reader_rounds_ok") == 12, report.get("std_reader_rounds_ok")),
         floor("gathering sinks and first-slice-only sinks", report.get("sinks/gathering") > 1000 && report.get("sinks/first_slice_only") > 1000, report.get("sinks/gathering")),
         floor("write failures surfaced and complete writes both observed", report.get("write_failures_surfaced") > 0 && report.get("writes_ok_complete") > 0, report.get("write_failures_surfaced")),
     ];
